@@ -621,6 +621,36 @@ def rule_r11(repo, run):
     repl = [c for c in ast.walk(wf) if isinstance(c, ast.Call) and isinstance(c.func, ast.Attribute) and c.func.attr == "_replace"
             and any(k.arg == "format" and isinstance(k.value, ast.Constant) and k.value.value == "O" for k in c.keywords)]
     guarded = [c for c in repl if any("inout" in str(wp.seg(t)) for t, pol in pyflow.dominating_tests(c, stop=wf))]
+    # the reference taken for a borrowed object returned *by itself* belongs to the code block the single-value path
+    # consumes, and to no block the tuple path consumes ("O" already takes one there)
+    single = [i for i in ast.walk(wf) if isinstance(i, ast.If) and "len(build_tuples) == 1" in wp.seg(i.test)]
+    if len(single) != 1:
+        raise AnalysisError("C06.R11: single-value arm of wrap_function not found")
+    def fields_read(stmts, names):
+        out = set()
+        for st in stmts:
+            for a in ast.walk(st):
+                if isinstance(a, ast.Attribute) and a.attr in BT_FIELDS and isinstance(a.ctx, ast.Load):
+                    base = a.value
+                    if isinstance(base, ast.Subscript) and pyflow.is_name(base.value, "build_tuples") or \
+                            isinstance(base, ast.Name) and base.id in names:
+                        out.add(a.attr)
+        return out
+    bt = [a for a in ast.walk(wp.tree) if isinstance(a, ast.Assign) and pyflow.is_name(a.targets[0], "BuildTuple")]
+    BT_FIELDS = set(pyflow.const_str(bt[0].value.args[1]).split()) if bt else set()
+    if not BT_FIELDS:
+        raise AnalysisError("C06.R11: BuildTuple field list not found")
+    loopvars = set(l.target.id for st in single[0].orelse for l in ast.walk(st) if isinstance(l, ast.For)
+                   and isinstance(l.target, ast.Name) and "build_tuples" in wp.seg(l.iter))
+    one = fields_read(single[0].body, set()) - {"format", "vargs", "ctorvar"}
+    many = fields_read(single[0].orelse, loopvars) - {"format", "vargs", "ctorvar"}
+    for c in guarded:
+        inc = [k.arg for k in c.keywords if "Py_INCREF" in wp.seg(k.value)]
+        run.check(R, "wrapp.Wrapp.wrap_function:borrowed-object:reference-block", bool(inc) and set(inc) <= one - many,
+                  "the Py_INCREF for a borrowed argument object is attached to BuildTuple field(s) %s; the single-value return "
+                  "consumes %s and the tuple path %s: in a field of the tuple path the lone return is a borrowed reference "
+                  "(released while still held) and the tuple gets one reference too many" % (inc, sorted(one), sorted(many)),
+                  wp.loc(c))
     run.check(R, "wrapp.Wrapp.wrap_function:borrowed-object:build_format", bool(guarded) or not borrowed or fmts != ["N"],
               "entries %s hand back the argument object parsed with \"O!\" (a borrowed reference): with \"N\" the tuple would "
               "steal the caller's reference - they need \"O\"" % borrowed[:4], wp.loc(wf))
